@@ -127,3 +127,12 @@ CHECKS["C08"] = (
     "DESIGN.md#c08",
 )
 NA.pop("C08", None)
+
+CHECKS["C18"] = (
+    "other",
+    "static analysis: write-effect summaries of the repair functions; structural prefix-append checks; polynomial identity (sympy) for the subdivision child table evaluated against the extracted edge layout; control-structure checks of the per-body inversion repair",
+    "Decides for all meshes: winding / normal repair (fix_winding, fix_inversion, fix_normals, invert) can write faces only - never vertices, visuals or attributes; fill_holes and subdivide append after the originals; each of subdivide's four children is exactly a quarter of its parent with the parent's orientation and they tile it (so area, winding and signed volume are preserved by construction) and Loop subdivision uses the same connectivity; faces are selected by an idempotent mask; the per-body inversion repair is reached for every watertight mesh and flips exactly the negative-volume bodies. That BFS re-winding reaches consistency, hole detection, Euler number, edge-length bounds and Loop masks are not decided.",
+    "Trusted: E1 effect model; sympy expand; the edge layout extracted for C05; several R2/R4/R5 sub-rules match statements textually after ast normalisation.",
+    "DESIGN.md#c18",
+)
+NA.pop("C18", None)
